@@ -677,7 +677,9 @@ fn anm_entry(r: &mut Rng, game: &str, wild: bool, nspr: &mut i64) -> String {
         }
         used.push(id);
         let _ = k;
-        s.push_str(&format!("        spr{}: {{id: {}, x: {}, y: {}, w: {}, h: {}}},\n", *nspr, id, float_lit(r), float_lit(r), float_lit(r), float_lit(r)));
+        // (wild) an integer literal where a float is stored: refused, or kept exactly
+        let fx = if wild && r.chance(1, 3) { r.pick(&[5i64, 16777216, 16777217, 2147483647, -16777217]).to_string() } else { float_lit(r) };
+        s.push_str(&format!("        spr{}: {{id: {}, x: {}, y: {}, w: {}, h: {}}},\n", *nspr, id, fx, float_lit(r), float_lit(r), float_lit(r)));
         *nspr += 1;
     }
     s.push_str("    },\n}\n");
